@@ -300,6 +300,9 @@ def run_frontend(fe, tb: Table, config_dict, scratch: Scratch, opts=None):
             if tb.with_pos:
                 kw_axes["lat"], kw_axes["lon"] = tb.lat, tb.lon
             inp = dict(tb.data) if fe == "numpy-dict" else tb.data[tb.streams[0]]
+            if opts.get("masked_input"):
+                mk = lambda a: np.ma.MaskedArray(a, mask=[(i % 3 == 1) for i in range(len(a))])  # noqa: E731
+                inp = {k: mk(v) for k, v in inp.items()} if isinstance(inp, dict) else mk(inp)
             st = NumpyStream(inp=inp, **kw_axes)
         elif fe == "xarray-ds":
             st = XarrayStream(to_dataset(tb, time_coord=opts.get("time_coord", True)))
